@@ -122,3 +122,14 @@ CLAIMED['C40'] = dict(
     note="T is abstracted to an int tag (copy/move are value copies; throwing or self-referential element types are outside the proof); the perfect-forwarding constructor and emplace "
          "are verified at one argument of type T. The moved-from-object leak this check found on the pinned tree was repaired (fix: commit recorded in known_findings.txt).",
     technique="CBMC DFCC function contracts + class invariant + ghost lifetime library")
+
+CLAIMED['C15'] = dict(
+    category='proof',
+    text="for_each_n's path/thread-count slice is verified for every (n, maxThreads, wait, pool size >= 0, recursion flag): the serial path is taken for n == 0, maxThreads == 0 and "
+         "recursion, and otherwise staticChunkSize receives 1 <= numThreads <= n chunks (so its precondition holds, no division by zero) with numThreads <= maxThreads and <= pool + wait; "
+         "the chunk derivation and the per-chunk offsets of the random-access schedule tile [0,n) exactly (C17 units, lemma function over contracts); the boundary table of the "
+         "non-random-access schedule is start + prefix sums of the prescribed sizes (loop invariant with ghost index); the serial loop applies f to positions start..start+n-1 in "
+         "order exactly once each (CBMC loop contract).",
+    note="Completion at wait() and exactly-once execution of each scheduled chunk are C02/C01 (assumed). Iterators are rendered as positions. Back ends: intwp for the arithmetic, CBMC "
+         "DFCC loop contracts for the serial loop. The zero-thread-pool division by zero this check found on the pinned tree was repaired (fix: commit in known_findings.txt).",
+    technique="function + loop contracts over extracted slices; VC generation over Int / CBMC DFCC")
